@@ -173,6 +173,28 @@ def run(ctx):
     if len(body) != 1 or body[0]["e"].get("s", "").replace(" ", "") != "self.lexeme_start":
         r.violate("lexer", "Lexer::get_consumed_byte_count no longer returns exactly lexeme_start (with handlers at most the single unfinished token is held back)", "src/parser/lexer/mod.rs")
 
+    # ------------------------------------------------------------------ R09.6
+    r = ctx.rule("R09.6", "the dispatcher asks for end-tag lexemes on its own only while emission is disabled: in handle_end_tag_hint the NEXT_END_TAG capture flag is added under should_stop_removing_element_content(), which requires !emission_enabled; otherwise every end tag would be handed to the lexer and held back until its `>`", "E-MIR control dependence", floor=2)
+    from ..mirlib import load as _load, guarding_branches as _gb, callee_key as _ck
+    from . import shared_mir as _sm
+    _mir = _load()
+    he = _mir.fn("Dispatcher::handle_end_tag_hint[TagHintSink]")
+    ors = [bi for bi, t in he.calls(r"bitor_assign|BitOr|TokenCaptureFlags::union|insert$")]
+    r.inst("end_tag_hint|flag-guard", sample={"flag_additions": len(ors)})
+    okg = bool(ors) and all(any("should_stop_removing_element_content(" in he.deep(he.blocks[sb]["term"]["d"]) for sb in _gb(he, bi)) for bi in ors)
+    if not okg:
+        r.violate("end_tag_hint|flag-guard", "handle_end_tag_hint adds the NEXT_END_TAG capture flag without (or under something other than) should_stop_removing_element_content(): end tags are lexed in full although no handler needs them, so `</p class=\"y` stays unemitted until the `>` arrives", he.loc())
+    ss = _mir.fn("DispatcherDelegate::should_stop_removing_element_content")
+    sw0 = ss.blocks[0]["term"]
+    r.inst("should_stop_removing|emission-disabled-first", sample={"reads": sorted(_sm.fields_read(ss))})
+    first_is_flag = sw0["k"] == "switch" and ss.deep(sw0["d"]).endswith("emission_enabled")
+    calls_on_true_edge = False
+    if first_is_flag:
+        zero_t = [x[1] for x in sw0["ts"] if x[0] == 0]      # emission_enabled == false
+        calls_on_true_edge = bool(zero_t) and all(ss.dominates(zero_t[0], bi) for bi, t in ss.calls(r"should_emit_content$")) and bool(list(ss.calls(r"should_emit_content$")))
+    if not first_is_flag or not calls_on_true_edge:
+        r.violate("should_stop_removing|emission-disabled-first", "should_stop_removing_element_content no longer requires emission to be disabled", ss.loc())
+
     # ------------------------------------------------------------------ R09.5 (shared with C03 R03.8)
     # a RequestLexeme answer makes the tag scanner hand the whole tag to the lexer, which holds its bytes back
     # until the tag is complete: it may be given only where the specification-derived table needs the full tag
